@@ -84,6 +84,9 @@ Fixpoint dec_space (x : sx) : option space :=
   | L (A 2 :: r) => option_map MultiDiscrete (all_some (map sxZ r))
   | L (A 3 :: r) => option_map BoxI (all_some (map sxPair r))
   | L (A 4 :: r) => option_map BoxF (all_some (map sxPair r))
+  (* a bounded integer Box of a dtype other than int64 is not admitted by check_space: for the
+     ravel model it is as unsupported as a float Box (only used by the C04 generator) *)
+  | L (A 7 :: A _ :: r) => option_map BoxF (all_some (map sxPair r))
   | L (A 5 :: r) =>
       option_map Tuple
         ((fix go (r : list sx) : option (list space) :=
